@@ -1,3 +1,5 @@
 -- Root of the `RainModel` library: models, lemmas, property theorems.
 import RainModel.Model.Blocks
 import RainModel.Model.Request
+import RainModel.Model.Cache
+import RainModel.Model.CachedPiece
